@@ -197,7 +197,7 @@ it, every attribute of the parent and every valid view of the reduced dataset (N
 items, short tuples, index arrays, Boolean masks): `IndexedData.get_data(cid, view)` — the parent
 evaluated at the view built by `_to_original_view` — equals `parent_full[indices][view]`. -/
 theorem indexed_get (psh : List Nat) (ix : List (Option Nat)) (a : Attr) (v : View)
-    (hix : Lemmas.C04.ixValid psh ix = true) (hw : Spec.attrWf psh a = true)
+    (hix : ixValid psh ix = true) (hw : Spec.attrWf psh a = true)
     (hok : ∃ sp, viewPoints (reducedShape psh ix) v = .ok sp) :
     Impl.indexedAttr psh ix (.parent a) v =
       Spec.indexedViewOf (tabulate psh (Spec.attrAt psh a)) ix v ∧
@@ -213,13 +213,13 @@ theorem indexed_get (psh : List Nat) (ix : List (Option Nat)) (a : Attr) (v : Vi
 /-- **Pixel attributes of the reduced dataset** (`_translate_cid`): its `k`-th pixel attribute under
 any valid view is the pixel attribute `k` of a plain dataset of the reduced shape. -/
 theorem indexed_pixel (psh : List Nat) (ix : List (Option Nat)) (k : Nat) (v : View)
-    (hix : Lemmas.C04.ixValid psh ix = true) (hk : k < (reducedShape psh ix).length)
+    (hix : ixValid psh ix = true) (hk : k < (reducedShape psh ix).length)
     (hok : ∃ sp, viewPoints (reducedShape psh ix) v = .ok sp) :
     Impl.indexedAttr psh ix (.pixel k) v = Impl.attr (reducedShape psh ix) (.pixel k) v := by
   rw [Lemmas.C04.attr_gather (reducedShape psh ix) (.pixel k) rfl v]
   unfold Impl.indexedAttr
   have := Lemmas.C04.gather_original psh ix (Spec.attrAt psh (.pixel (translateAxis ix k))) v hix hok
-  have hfun : (fun idx => Spec.attrAt psh (.pixel (translateAxis ix k)) (Lemmas.C04.embed ix idx)) =
+  have hfun : (fun idx => Spec.attrAt psh (.pixel (translateAxis ix k)) (embed ix idx)) =
       Spec.attrAt (reducedShape psh ix) (.pixel k) := by
     funext idx
     simp only [Spec.attrAt, Lemmas.C04.getD_embed_translateAxis psh ix idx k hix hk]
@@ -232,7 +232,7 @@ theorem indexed_pixel (psh : List Nat) (ix : List (Option Nat)) (k : Nat) (v : V
 /-- **`indexed_mask`**: `IndexedData.get_mask(state, view)` equals `parent_mask[indices][view]` for every
 selection of `state_view_partial`. -/
 theorem indexed_mask (psh : List Nat) (ix : List (Option Nat)) (st : State) (v : View)
-    (hix : Lemmas.C04.ixValid psh ix = true) (hw : Spec.stateWf psh st = true) (hp : st.plain = true)
+    (hix : ixValid psh ix = true) (hw : Spec.stateWf psh st = true) (hp : st.plain = true)
     (hv : v.posStep = true) (hok : ∃ sp, viewPoints (reducedShape psh ix) v = .ok sp) :
     Impl.indexedMask psh ix st v = Spec.indexedViewOf (tabulate psh (Spec.holds psh st)) ix v ∧
     Impl.mask psh st .none = .ok (tabulate psh (Spec.holds psh st)) := by
@@ -250,7 +250,7 @@ theorem indexed_mask (psh : List Nat) (ix : List (Option Nat)) (st : State) (v :
 positions are unchanged) the reduced dataset has the same shape and `indexed_get` holds with the new
 indices: nothing of the old indices survives. -/
 theorem indexed_after_reindex (psh : List Nat) (ix0 ix1 ix : List (Option Nat)) (a : Attr) (v : View)
-    (hset : setIndices ix0 ix1 = some ix) (hix : Lemmas.C04.ixValid psh ix1 = true)
+    (hset : setIndices ix0 ix1 = some ix) (hix : ixValid psh ix1 = true)
     (hw : Spec.attrWf psh a = true) (hok : ∃ sp, viewPoints (reducedShape psh ix0) v = .ok sp) :
     reducedShape psh ix = reducedShape psh ix0 ∧
     Impl.indexedAttr psh ix (.parent a) v =
@@ -259,7 +259,20 @@ theorem indexed_after_reindex (psh : List Nat) (ix0 ix1 ix : List (Option Nat)) 
   have hsh := Lemmas.C04.reducedShape_setIndices psh ix0 ix hl hpat
   refine ⟨hsh, (indexed_get psh ix a v hix hw (by rw [hsh]; exact hok)).1⟩
 
-example : Lemmas.C04.ixValid [2, 3, 4] [none, some 2, none] = true ∧
+/-- **Histograms (and any statistic) of a reduced dataset**: `IndexedData.compute_histogram` evaluates
+the *parent* with the caller's selection intersected with `_indices_subset_state`.  For every parent
+value function `f` and every selection test `g`, the parent values selected by `g` and the indices
+state, in row-major order, are exactly the values of the reduced dataset selected by `g` — hence any
+histogram or statistic of them is that of the parent slice (`compute_statistic` goes through
+`_to_original_view`, i.e. `indexed_get`). -/
+theorem indexed_histogram_selection {α : Type} (psh : List Nat) (ix : List (Option Nat))
+    (f : List Nat → α) (g : List Nat → Bool) (hix : ixValid psh ix = true) :
+    ((allIdx psh).filter fun idx => g idx && Spec.sliceHolds psh (indicesSlices ix) idx).map f =
+      ((allIdx (reducedShape psh ix)).filter fun idx => g (embed ix idx)).map fun idx => f (embed ix idx) := by
+  rw [← List.filter_filter, Lemmas.C04.filter_indices_state psh ix hix, List.filter_map, List.map_map]
+  rfl
+
+example : ixValid [2, 3, 4] [none, some 2, none] = true ∧
     setIndices [none, some 2, none] [none, some 0, none] = some [none, some 0, none] ∧
     toOriginalView [2, 3, 4] [none, some 2, none] (.basic [.int 1]) =
       .ok (.basic [.int 1, .int 2, .slice none none none]) := ⟨by decide, by decide, by rfl⟩
